@@ -659,6 +659,8 @@ def bin_rules(run, db):
         if len(res) != 1:
             raise AnalysisError('bindown(%s): expected one path' % mode)
         ev = [e for e in res[0].events if e['kind'] == 'reduce']
+        if not ev and not isinstance(res[0].value, Shaped):
+            raise AnalysisError("bindown(mode='%s'): how the bins are reduced is not followed (%r)" % (mode, res[0].value))
         ok = len(ev) == 1 and ev[0]['which'] == red
         detail = 'reductions: %s' % [(e['which'], e['axes']) for e in ev]
         if ok:
